@@ -27,3 +27,9 @@ func (vx *Vaxis) VerifC11SetWidthCaps(unicodeCore, explicitWidth bool) {
 	vx.caps.explicitWidth = explicitWidth
 	vx.charCache = make(map[string]int, 256)
 }
+
+// VerifC11CursorNext returns the cursor requested for the next frame (what
+// ShowCursor / HideCursor last set): column, row, style and visibility.
+func (vx *Vaxis) VerifC11CursorNext() (col int, row int, style int, visible bool) {
+	return vx.cursorNext.col, vx.cursorNext.row, int(vx.cursorNext.style), vx.cursorNext.visible
+}
